@@ -45,6 +45,11 @@ def normalize(q, nv_declared):
     walk(q["cond"], f)
     walk(q.get("flats", []), f)
     walk(q.get("head", {}), f)
+    def g(n):
+        if n.get("k") == "forall":
+            n["uv"] = [ren[i] for i in n["uv"]]
+    walk(q["cond"], g)
+    q["bound"] = [ren[i] for i in q.get("bound", []) if i in ren]
     q["_used"] = used
     return q
 
